@@ -269,6 +269,14 @@ func checkLeftover(c *leftoverCase) string {
 		intp := postscript.NewInterpreter()
 		intp.MaxOps = targets.InterpMaxOps
 		e1 := intp.ExecuteString(first)
+		// the second program was generated for an empty operand stack and the
+		// initial dictionary stack (its generator only applies order-dependent
+		// operators such as forall to values it made itself): what the first
+		// call left on the stacks is removed, its definitions stay
+		intp.Stack = intp.Stack[:0]
+		if len(intp.DictStack) > 2 {
+			intp.DictStack = intp.DictStack[:2]
+		}
 		e2 := intp.ExecuteString(c.Next)
 		return pscanon.ErrorName(e1), pscanon.ErrorName(e2), pscanon.State(intp)
 	}
